@@ -337,7 +337,8 @@ def specBindN (t : Forest) (q : NReq) : NOutcome :=
 
 /-- every field of the tree with the key path of its enclosing object as the specification sees it (`P`) and as the
 unmarshaller sees it (`D`; `none` = under a struct the unmarshaller ignores: class `json-dash`; under a promoted embedded
-struct `D` is the path on which the decoders look, which has the Go name of the struct in it: class `embedded-json-path`);
+struct both are the enclosing object's path since `/repo` 1242bf1 — before it the decoders looked under the Go name of the
+struct: the former class `embedded-json-path`);
 `true` marks struct-typed fields -/
 def fieldCtx (P : List Bytes) (D : Option (List Bytes)) : Forest → List (Field × Bool × List Bytes × Option (List Bytes))
   | .nil => []
@@ -345,7 +346,7 @@ def fieldCtx (P : List Bytes) (D : Option (List Bytes)) : Forest → List (Field
   | .strct hdr anon kids rest =>
     (hdr, true, P, D) ::
       (fieldCtx (if promoted hdr anon then P else P ++ [specName hdr])
-          (if promoted hdr anon then (stepD D hdr anon).map (· ++ [specName hdr]) else stepD D hdr anon) kids ++
+          (stepD D hdr anon) kids ++
         fieldCtx P D rest)
 
 /-! ### classes of known deviations for nested fields -/
